@@ -33,7 +33,7 @@ func Harness_C07_impact() {
 		// natively time.Since reads the real clock: the span arrived `age` ago, give or take the
 		// time the call itself takes
 		sp.ArrivalTime = time.Now().Add(-time.Duration(age))
-		slack = int64(50 * time.Millisecond)
+		slack = int64(time.Second) // generous: a loaded machine may deschedule the replay between two statements
 	}
 	impact := sp.CacheImpact(T)
 	zz.Assert(impact%size == 0, "the impact is a whole multiple of the data size")
